@@ -74,7 +74,9 @@ def _sink(ev, p):
             elif prop == "C11" and mode in ("sequential", "bidirectional"):
                 mon_c11(net, obs, opts, mode)
     except Exception as e:   # a monitor crash on an exotic test net is recorded, never raised into the test
-        obs.count("monitor_error_" + type(e).__name__)
+        import traceback
+        fr = traceback.extract_tb(e.__traceback__)[-1]
+        obs.count("monitor_error_%s_at_%s_%d" % (type(e).__name__, os.path.basename(fr.filename), fr.lineno))
     rec = obs.record()
     rec["test"] = _STATE["test"]
     rec["mode"] = mode
